@@ -19,4 +19,6 @@ func init() {
 	}
 	engines["C17"] = RunTapeInv
 	engines["C19"] = RunFaultBlob
+	engines["C05"] = RunFaultDoc
+	engines["C20"] = RunConc
 }
